@@ -309,6 +309,25 @@ def rules(rep, m):
         pn = [p["name"] for p in ta.params]
         r4.instance("timer_add schedules (%s)" % ", ".join(a))
         rep.sample({"rule": "R-C04-4", "timer_add": a})
+        # a clamp of the duration at zero is the duration itself where the routine asserts dur >= 0 at its top level:
+        # in the arm where the test leaves dur == 0 the literal zero (or dur) is the duration, an arm that needs dur < 0 is
+        # dead, the other arm must be dur.  Anything else about the conditional stays as written (and is not accepted).
+        from ..vals import assert_condition as _ac
+        asserted = set()
+        for st_ in kids(ta.body):
+            c_ = _ac(st_) if st_["kind"] in ("ParenExpr", "ConditionalOperator", "CStyleCastExpr") else None
+            if c_ is not None:
+                asserted.add(tx.canon(c_))
+        if "(%s >= 0.0)" % pn[1] in asserted or "(%s >= 0)" % pn[1] in asserted:
+            d_ = re.escape(pn[1])
+            zero = r"(?:0\.0|0|%s)" % d_
+            for pat in (r"\(\(%s > (?:0\.0|0)\) \? %s : %s\)" % (d_, d_, zero),
+                        r"\(\(%s <= (?:0\.0|0)\) \? %s : %s\)" % (d_, zero, d_),
+                        r"\(\(%s == (?:0\.0|0)\) \? %s : %s\)" % (d_, zero, d_),
+                        r"\(\(%s != (?:0\.0|0)\) \? %s : %s\)" % (d_, d_, zero),
+                        r"\(\(%s < (?:0\.0|0)\) \? [^?:()]+ : %s\)" % (d_, d_),
+                        r"\(\(%s >= (?:0\.0|0)\) \? %s : [^?:()]+\)" % (d_, d_)):
+                a[3] = re.sub(pat, pn[1], a[3])
         okt = a[0] == "wakeup_event_time" and a[1] == pn[0] and a[2] == pn[2] and \
             a[3] in ("(cmb_time() + %s)" % pn[1], "(sim_time + %s)" % pn[1], "(%s + cmb_time())" % pn[1]) and \
             a[4] == pn[0] + "->priority"
